@@ -605,6 +605,25 @@ func NodeArray(r *rand.Rand, n int) []byte {
 	return b
 }
 
+// NodeStatusRData is a node status RDATA announcing n names whose length is 1+18n+delta: delta < 0
+// cuts the array short (delta = -1: only the last flags octet is missing), delta > 0 appends
+// STATISTICS bytes.  Lengths below zero give an empty RDATA.
+func NodeStatusRData(r *rand.Rand, n, delta int) []byte {
+	arr := NodeArray(r, n)
+	// make the last entry a unique name so that accepting a short array is visible in the result
+	if n > 0 {
+		arr[len(arr)-2] &= 0x7f
+	}
+	l := len(arr) + delta
+	if l < 0 {
+		l = 0
+	}
+	for len(arr) < l {
+		arr = append(arr, byte(r.Intn(256)))
+	}
+	return arr[:l]
+}
+
 func RandNBNS(r *rand.Rand) Msg {
 	owner := Name{NBNSEncode(NBName("*"))[1:33]}
 	m := Msg{ID: uint16(r.Intn(65536)), Flags: 0x8400}
@@ -624,7 +643,17 @@ func RandNBNS(r *rand.Rand) Msg {
 			m.An = append(m.An, RR{Name: owner, Type: uint16(r.Intn(65536)), Class: 1, TTL: 0, Raw: RandLabel(r, r.Intn(10))})
 		default:
 			arr := NodeArray(r, r.Intn(5))
-			arr = append(arr, make([]byte, r.Intn(47))...) // statistics
+			switch r.Intn(6) {
+			case 0: // exactly the array
+			case 1: // cut short, mostly right at the end of the array
+				cut := []int{1, 1, 2, 17, 18, 19}[r.Intn(6)]
+				if cut > len(arr) {
+					cut = len(arr)
+				}
+				arr = arr[:len(arr)-cut]
+			default:
+				arr = append(arr, make([]byte, r.Intn(47))...) // statistics
+			}
 			m.An = append(m.An, RR{Name: owner, Type: TypeNBSTAT, Class: 1, TTL: 0, Raw: arr})
 		}
 	}
